@@ -213,9 +213,14 @@ pub fn judge_c23(sc: &Scenario) -> (Judged, RunResult) {
     let expected = expected_items(model);
     let mut used = vec![false; records.len()];
     for e in &expected {
-        let hit = records.iter().enumerate().position(|(k, r)| {
-            !used[k] && r.kind == e.kind && (e.key.is_empty() || r.key == e.key) && rec_content(r) == e.content
-        });
+        // items without a key (data segments, types) can have identical content: a record that also carries
+        // the expected tag is the match, otherwise the first one with the content
+        let same = |k: usize, r: &SideFx| !used[k] && r.kind == e.kind && (e.key.is_empty() || r.key == e.key) && rec_content(r) == e.content;
+        let hit = records
+            .iter()
+            .enumerate()
+            .position(|(k, r)| same(k, r) && r.tag == e.tag)
+            .or_else(|| records.iter().enumerate().position(|(k, r)| same(k, r)));
         match hit {
             Some(k) => {
                 used[k] = true;
